@@ -63,18 +63,23 @@ pub fn install_panic_hook() {
         if verbose {
             eprintln!("[panic] {full}");
         }
-        LAST_PANIC.with(|p| *p.borrow_mut() = Some(full));
+        // (try_with: the hook may run while the thread's locals are being destroyed)
+        let _ = LAST_PANIC.try_with(|p| *p.borrow_mut() = Some(full.clone()));
     }));
 }
 
 /// Runs `f`, turning an unwind into Err("panic: ...").
 pub fn no_panic<T>(f: impl FnOnce() -> T) -> Result<T, String> {
-    LAST_PANIC.with(|p| *p.borrow_mut() = None);
+    let _ = LAST_PANIC.try_with(|p| *p.borrow_mut() = None);
     match catch_unwind(AssertUnwindSafe(f)) {
         Ok(v) => Ok(v),
-        Err(_) => {
+        Err(e) => {
             let m = LAST_PANIC
-                .with(|p| p.borrow_mut().take())
+                .try_with(|p| p.borrow_mut().take())
+                .ok()
+                .flatten()
+                .or_else(|| e.downcast_ref::<String>().cloned())
+                .or_else(|| e.downcast_ref::<&str>().map(|s| s.to_string()))
                 .unwrap_or_else(|| "<unknown>".into());
             Err(format!("panic: {m}"))
         }
